@@ -17,12 +17,12 @@ def ruleAt : Calendar → Int → Rule
   | .reforming r _, j => side r j
 
 theorem WF.cases {c : Calendar} (h : WF c) :
-    c = .julian ∨ c = .gregorian ∨ ∃ rf : Reform, c = rf.cal ∧ InI32 rf.R := by
+    c = .julian ∨ c = .gregorian ∨ ∃ rf : Reform, c = rf.cal ∧ InI32 rf.R ∧ InI32 (rf.R - 1) := by
   rcases h with h | h | ⟨R, hR, h⟩
   · exact Or.inl h
   · exact Or.inr (Or.inl h)
-  · obtain ⟨rf, e, eR⟩ := mk_reform R hR c h
-    exact Or.inr (Or.inr ⟨rf, e, by rw [eR]; exact hR⟩)
+  · obtain ⟨rf, e, eR, hR1⟩ := mk_reform R hR c h
+    exact Or.inr (Or.inr ⟨rf, e, by rw [eR]; exact hR, by rw [eR]; exact hR1⟩)
 
 /-- **`at_jdn` succeeds on every day number and returns the date the specification gives** -/
 theorem atJdn_total (c : Calendar) (hc : WF c) (j : Int) :
